@@ -194,7 +194,28 @@ int run_case(Reader& r, bool& nontrivial, std::string& desc) {
                    SAME(col[col.size() + 3], std::string(), "C13:split-index");
                    desc += sfmt("split(%zu%s);", d.size(), reuse ? ",reused" : ""); break; }
         case 17: { char to = (char)(1 + r.below(255)), with = (char)(1 + r.below(255)); if (!m[i].empty() && r.flag()) to = m[i][r.below((uint32_t)m[i].size())];
-                   s[i]->replace(to, with); for (auto& c : m[i]) if (c == to) c = with; SAME(*s[i], m[i], "C13:replace-char"); desc += "replc;"; break; }
+                   // replacing by NUL shortens the string in place (the buffer keeps its size): everything after must go by the new length
+                   bool by_nul = !r.empty() && r.below(4) == 1; if (by_nul) { with = 0; verif::cls("replace-char-by-NUL (shortened in place)"); }
+                   s[i]->replace(to, with); for (auto& c : m[i]) if (c == to) c = with;
+                   if (by_nul) {
+                       std::string before = m[i]; m[i] = m[i].c_str();
+                       // right away: every reader must go by the new length, not by what is left in the buffer behind the terminator
+                       std::string stale = before.size() > m[i].size() ? before.substr(m[i].size() + 1) : std::string();   // bytes that used to follow
+                       stale = stale.c_str();                                                                                  // (as a C string: up to the next NUL)
+                       size_t k = m[i].empty() ? 0 : r.below((uint32_t)m[i].size() + 1);
+                       V_CHECK(s[i]->size() == m[i].size(), "C13:shortened-in-place", "size() %zu after replace by NUL, expected %zu", s[i]->size(), m[i].size());
+                       V_CHECK(s[i]->endsWith(m[i].substr(k).c_str()), "C13:shortened-in-place", "\"%s\" does not end with its own tail \"%s\"", verif::printable(m[i]).c_str(), verif::printable(m[i].substr(k)).c_str());
+                       if (!stale.empty()) { bool want = m[i].size() >= stale.size() && m[i].compare(m[i].size() - stale.size(), stale.size(), stale) == 0;
+                           V_CHECK(s[i]->endsWith(stale.c_str()) == want, "C13:shortened-in-place", "endsWith(\"%s\") on \"%s\" (shortened in place) -> %d", verif::printable(stale).c_str(), verif::printable(m[i]).c_str(), !want); }
+                       { SimpleString longer((m[i] + "x" + m[i]).c_str()); V_CHECK(longer.endsWith(*s[i]), "C13:shortened-in-place", "a string ending in the shortened one does not end with it"); }
+                       { SimpleString cat = *s[i] + "z"; SAME(cat, m[i] + "z", "C13:shortened-in-place"); }
+                       { // split must treat it exactly like a freshly built string of the same value (the split operation itself is judged by kind 16)
+                         char dl[2] = {m[i].empty() ? 'x' : m[i][r.below((uint32_t)m[i].size())], 0};
+                         SimpleStringCollection c2, c3; SimpleString fresh(m[i].c_str()); s[i]->split(dl, c2); fresh.split(dl, c3);
+                         V_CHECK(c2.size() == c3.size(), "C13:shortened-in-place", "split('%s') of the shortened string: %zu tokens, a fresh equal string gives %zu", verif::printable(dl).c_str(), c2.size(), c3.size());
+                         for (size_t q = 0; q < c2.size(); q++) V_CHECK(c2[q] == c3[q], "C13:shortened-in-place", "split token %zu differs from that of a fresh equal string", q); }
+                   }
+                   SAME(*s[i], m[i], "C13:replace-char"); desc += by_nul ? "replc0;" : "replc;"; break; }
         case 18: { std::string to = gen_str(r, m), with = gen_str(r, m);
                    if (with.size() > 20) with = with.substr(0, 20);
                    if (to.empty()) {
